@@ -98,7 +98,9 @@ class Bar(object):
             notes = NoteContainer(notes)
         elif isinstance(notes, list):
             notes = NoteContainer(notes)
-        if self.current_beat + 1.0 / duration <= self.length or self.length == 0.0:
+        # The tolerance is far below any note value: it only absorbs the rounding
+        # error of the accumulated float current_beat when a note exactly fills the bar.
+        if self.current_beat + 1.0 / duration <= self.length + 1e-9 or self.length == 0.0:
             self.bar.append([self.current_beat, duration, notes])
             self.current_beat += 1.0 / duration
             return True
